@@ -53,7 +53,7 @@ def snapshot (fs : Fs) : String :=
 
 def b01 (b : Bool) : String := if b then "1" else "0"
 
-/-- fs paths: C strings without backslash (POSIX treats it as an ordinary byte, File.cpp as a separator) -/
+/-- fs paths: C strings (a backslash is an ordinary byte for the kernel; File.cpp's path functions split at it) -/
 def lexDepth : List Bytes → Int → Option Int
   | [], d => some d
   | c :: rest, d =>
@@ -62,13 +62,13 @@ def lexDepth : List Bytes → Int → Option Int
     else lexDepth rest (d + 1)
 
 /-- the path does not lexically climb above the world root (which is a scratch directory in reality) -/
-def lexInside (b : Bytes) : Bool := (lexDepth (chunks b) (if startsWith47 b then 0 else 1)).isSome
+def lexInside (b : Bytes) : Bool := (lexDepth (kchunks b) (if startsWith47 b then 0 else 1)).isSome
 
-def okFsPath (b : Bytes) : Bool := b.all (fun c => c != 0 && c != 92) && lexInside b
+def okFsPath (b : Bytes) : Bool := b.all (fun c => c != 0) && lexInside b
 
 /-- last component is a name (rmdir/unlink/rename of `.`/`..`/the root have their own errno rules: outside) -/
 def lastIsName (b : Bytes) : Bool :=
-  match (chunks b).getLast? with
+  match (kchunks b).getLast? with
   | some c => c != [46] && c != dotdot
   | none => false
 
@@ -80,7 +80,7 @@ def hitsCwd (fs : Fs) (b : Bytes) : Bool :=
 
 /-- Directory::purge climbs through getDirectoryName: only relative paths of plain names are run -/
 def purgeOk (b : Bytes) : Bool :=
-  !startsWith47 b && (chunks b).all (fun c => c != [46] && c != dotdot) && !(chunks b).isEmpty
+  !startsWith47 b && !b.contains 92 && (kchunks b).all (fun c => c != [46] && c != dotdot) && !(kchunks b).isEmpty
 
 def parseBool (s : String) : Option Bool :=
   if s == "0" then some false else if s == "1" then some true else none
